@@ -14,6 +14,10 @@ SPIN_OPMAP = {0: np.identity(2), 1: np.array([[0., 1.], [0., 0.]]), -1: np.array
 SPIN_CHARGE = {0: 0, 1: 2, -1: -2, 2: 0}
 
 
+def tensor_scale(obj):
+    return float(np.prod([max(np.linalg.norm(a), 1e-300) for a in obj.A]))
+
+
 class Obj:
     def __init__(self, kind, obj, shadow, universe):
         self.kind = kind            # 'mps' | 'mpo'
@@ -75,7 +79,8 @@ class History:
     def pick(self, kind, universe=None, nonzero=False):
         c = [o for o in self.pool if o.kind == kind and (universe is None or o.universe == universe)]
         if nonzero:
-            c = [o for o in c if o.shadow is None or np.linalg.norm(o.shadow) > 1e-12]
+            # well-conditioned non-zero: the dense norm is not at cancellation level relative to the product of the tensor norms
+            c = [o for o in c if o.shadow is None or np.linalg.norm(o.shadow) > 1e-6 * tensor_scale(o.obj)]
         return c[int(self.rng.integers(0, len(c)))] if c else None
 
     def new_state(self):
@@ -127,10 +132,11 @@ class History:
             o = self.pick('mps')
             mode = str(rng.choice(['left', 'right']))
             ends = (o.obj.qD[0].copy(), o.obj.qD[-1].copy())
-            nz = np.linalg.norm(o.shadow) > 1e-12
+            sc0 = tensor_scale(o.obj)
+            nz = np.linalg.norm(o.shadow) > 1e-6 * sc0
             nrm = o.obj.orthonormalize(mode)
             self.hist.append(f'orth-{mode}')
-            ctx.close('step.orthonormalize-factor', abs(float(nrm) - np.linalg.norm(o.shadow)), 1e-9 * max(1, np.linalg.norm(o.shadow)), 'factor != norm', detail)
+            ctx.close('step.orthonormalize-factor', abs(float(nrm) - np.linalg.norm(o.shadow)), 1e-9 * max(1, np.linalg.norm(o.shadow)) + 1e-12 * sc0, 'factor != norm', detail)
             if nz:
                 o.shadow = o.shadow / float(nrm)
                 ctx.ok('history.total-charge-kept', np.array_equal(o.obj.qD[0], ends[0]) and np.array_equal(o.obj.qD[-1], ends[1]), f'orthonormalize changed boundary charges', detail)
